@@ -214,6 +214,34 @@ func c12_1(c *core.Ctx, p *core.Prog) {
 			}
 		})
 	}
+	// every batch message of the package is made by Produce (where the id is taken and advanced): a short-cut
+	// that builds its own message ("nothing to encode") emits an id twice and a batch without a main record
+	var strays []string
+	for _, fn := range arrowRecordFuncs(p) {
+		if fn == a.produce || fn.Parent() == a.produce {
+			continue
+		}
+		core.EachInstr(fn, func(i ssa.Instruction) {
+			al, ok := i.(*ssa.Alloc)
+			if !ok || core.TypeName(al.Type()) != "BatchArrowRecords" {
+				return
+			}
+			// only messages the producer side hands out: the function returns it
+			returned := false
+			for _, r := range core.Returns(fn) {
+				for _, res := range r.Results {
+					if core.DerivesFrom(res, func(v ssa.Value) bool { return v == ssa.Value(al) }) {
+						returned = true
+					}
+				}
+			}
+			if returned && fn.Signature.Recv() != nil && core.NamedOf(fn.Signature.Recv().Type()) == a.producer {
+				strays = append(strays, core.FuncName(fn)+"@"+p.Pos(al.Pos()))
+			}
+		})
+	}
+	sort.Strings(strays)
+	c.Check(len(strays) == 0, "single-maker", p.Pos(a.produce.Pos()), core.FuncName(a.produce), "every BatchArrowRecords the producer returns is made by Produce", fmt.Sprintf("the producer returns a BatchArrowRecords that was not made by Produce (%v): its batch id is not advanced (the next batch repeats it) and it carries no main record", strays))
 	okW := len(writers) == 1 && incStore != nil
 	c.Check(okW, "single-writer", p.Pos(a.produce.Pos()), core.FuncName(a.produce), "the batch id is written only by Produce", fmt.Sprintf("the batch id has writers other than the single increment in Produce: %v", writers))
 	if incStore == nil {
